@@ -127,6 +127,7 @@ type Host struct {
 	uploads   map[string]*upload
 	upSeq     int
 	inFlight  atomic.Int32
+	active    atomic.Int32
 	// MaxInFlight is the largest number of simultaneously running request handlers seen.
 	MaxInFlight atomic.Int32
 }
@@ -168,6 +169,25 @@ func (h *Host) Addr() string { return strings.TrimPrefix(strings.TrimPrefix(h.Sr
 // Lock / Unlock give the harness consistent access to raw state.
 func (w *World) Lock()   { w.mu.Lock() }
 func (w *World) Unlock() { w.mu.Unlock() }
+
+// WaitIdle blocks until no request handler is running on any host (bounded by ~2 s).
+func (w *World) WaitIdle() {
+	quiet := 0
+	for i := 0; i < 4000 && quiet < 3; i++ {
+		busy := false
+		for _, h := range w.Hosts {
+			if h.active.Load() != 0 {
+				busy = true
+			}
+		}
+		if busy {
+			quiet = 0
+		} else {
+			quiet++
+		}
+		time.Sleep(500 * time.Microsecond)
+	}
+}
 
 // Requests returns the number of requests received so far by all hosts.
 func (w *World) Requests() int64 { return w.reqCount.Load() }
@@ -296,6 +316,8 @@ func (h *Host) errResp(status int, code, msg string) *response {
 // ServeHTTP implements http.Handler.
 func (h *Host) ServeHTTP(w http.ResponseWriter, r *http.Request) {
 	h.W.reqCount.Add(1)
+	h.active.Add(1)
+	defer h.active.Add(-1)
 	// in-flight window: from arrival until just before the first response byte is written, so
 	// that it always lies inside the period in which the client holds its throttle slot
 	n := h.inFlight.Add(1)
